@@ -27,10 +27,27 @@ def operand_type(t):
 
 
 def from_removed_state(term):
-    """operand derives from a value popped / taken out of the parser state in this call."""
-    for x in subterms(term):
-        if is_call(x) and x[1].split("::")[-1] in ("pop", "take", "replace", "remove", "swap_remove", "pop_front", "pop_back") and x[1].startswith(("std::vec::", "std::option::", "std::mem::", "std::collections::")):
-            return True
+    """The operand *itself* (followed through projections, element-of, field and receiver chains - not through the
+    arguments of lookups) is a value popped / taken out of the parser state in this call."""
+    t = term
+    for _ in range(40):
+        if not isinstance(t, tuple):
+            return False
+        k = t[0]
+        if k in ("proj", "elem", "field", "ok?", "await", "index", "cast"):
+            t = t[2] if k == "cast" else t[1]
+            continue
+        if k == "phi":
+            return from_removed_state(t[1]) or any(from_removed_state(x) for x in t[2])
+        if k == "call":
+            last = t[1].split("::")[-1]
+            if last in ("pop", "take", "replace", "remove", "swap_remove", "pop_front", "pop_back") and t[1].startswith(("std::vec::", "std::option::", "std::mem::", "std::collections::", "core::mem::")):
+                return True
+            if not t[2]:
+                return False
+            t = t[2][0]
+            continue
+        return False
     return False
 
 
@@ -101,6 +118,23 @@ def check(run, views, tier):
                         run.ob("R-COSTSITES", "%s: the input drive loop (one iteration per tag byte)" % fn.split("::", 1)[-1], ok, "unclassified loop", site(body, node),
                                key="R-COSTSITES|%s|raw-loop" % fn)
                         continue
+                    if name in T["alloc"]:
+                        seen.add(id(node))
+                        n_sites += 1
+                        size = t[2][-1] if t[2] else None
+                        bad = None
+                        for x in subterms(size) if size is not None else []:
+                            if is_call(x) and x[1].split("::")[-1] in ("len", "capacity", "count", "size_hint") and len(x) > 3:
+                                rty = operand_type(x)
+                                if any(m in rty for m in T["state_markers"]) or "HashMap" in rty or "BTreeMap" in rty or "Vec<std::vec::Vec" in rty:
+                                    bad = (x[1], rty)
+                        cls = None if bad else "per-token (pre-sizing by a literal or by the current token's length)"
+                        classes[cls] = classes.get(cls, 0) + 1
+                        run.ob("R-COSTSITES", "%s: %s(%s)" % (fn.split("::", 1)[-1], name.split("::")[-1], tshow(size)[:40]), cls is not None,
+                               "%s is sized by %s of accumulated parser state (%s): memory is allocated in proportion to earlier input for every later token / group" % (
+                                   name, bad[0].split("::")[-1] if bad else "?", (bad[1] if bad else "")[:60]), site(body, node),
+                               key="R-COSTSITES|%s|alloc|%s" % (fn, name.split("::")[-1]))
+                        continue
                     if name not in cost or not t[2]:
                         continue
                     seen.add(id(node))
@@ -116,8 +150,9 @@ def check(run, views, tier):
                         cls = "per-token (operand type %s holds no accumulated values)" % base[:40]
                     elif len_is_const(conds, operand) is not None:
                         cls = "bounded (length is %d on this path)" % len_is_const(conds, operand)
-                    elif name in T["copy"] and K is not None:
-                        cls = "bounded-by-depth (deep copy of accumulated values, repeated at most K=%d times per value by the nesting limit)" % K
+                    elif name in T["copy"] and K is not None and from_removed_state(operand):
+                        # only a copy of state that was popped in this call is repeated at most once per nesting level
+                        cls = "bounded-by-depth (deep copy of values popped from the state, repeated at most K=%d times per value by the nesting limit)" % K
                     elif name in T["scan"] and from_removed_state(operand):
                         cls = "amortised (operand removed from the parser state)"
                     classes[cls] = classes.get(cls, 0) + 1
